@@ -38,6 +38,8 @@ impl ScannerCache {
     /// long as the Arc is in the cache and thus alive.
     pub(crate) fn get(&mut self, modes: &[ScannerMode]) -> Result<ScannerImpl> {
         if let Some(scanner) = self.cache.get(modes) {
+            #[cfg(feature = "verif_hooks")]
+            crate::verif_hooks::cache_event(true, self.cache.len());
             // We need to clone the scanner because we need to return a new instance of the scanner.
             // This is because the scanner is mutable and we need to have a unique instance of the
             // scanner.
@@ -46,6 +48,8 @@ impl ScannerCache {
                 unsafe { (*std::sync::Arc::<ScannerImpl>::as_ptr(scanner)).clone() };
             Ok(cloned_scanner)
         } else {
+            #[cfg(feature = "verif_hooks")]
+            crate::verif_hooks::cache_event(false, self.cache.len());
             self.cache
                 .insert(modes.to_vec(), Arc::new(modes.try_into()?));
             Ok(self.get(modes).unwrap())
